@@ -458,7 +458,13 @@ func (w *world) deliver(i int, st step) *verdict {
 		if !is(gotID, w.nodes[st.ID]) {
 			return &verdict{"authenticator:wrong-id", desc + fmt.Sprintf(": peer got identity %v, spec says %s", gotID, st.ID), true}
 		}
-		if peer.IsClosed() {
+		other := se.pa
+		if toAcc {
+			other = se.pd
+		}
+		// (when the other end has already closed, an encrypted channel delivers its close notification to the accepted
+		// peer's receive routine at once: a closed connection is then the correct state)
+		if peer.IsClosed() && (other == nil || !other.IsClosed()) {
 			return &verdict{"handshake:closed-after-accept", desc + ": peer accepted and closed", false}
 		}
 	} else {
